@@ -646,6 +646,11 @@ Definition settle_one (epoch : Z) (st : state) (a : sacc) (i id : Z) : res sacc 
                          (sa_new a) (sa_remove a))
       | Ok st' (Loaded ds) =>
           if negb (ds_slash ds =? UNDEF) then Err st' ILLEGAL_ARGUMENT else
+          (* activated, but nothing is payable yet (the window [start, now) is empty): a pure no-op --
+             no process_deal_update, the proposal stays pending, the deal state is not rewritten *)
+          if epoch <=? p_start p then
+            Ok st' (mkSacc (sa_fails a) (sa_succ a + 1) (sa_settle a ++ [(0, 0)]) (sa_slashed a) (sa_new a) (sa_remove a))
+          else
           match process_deal_update st' ds p epoch with
           | Err st'' c => Ok st'' (sa_fail a i c)
           | Ok st'' (_, pay, completed, remove) =>
